@@ -141,13 +141,22 @@ REASONS = [
     (r"^filters::network::FilterPartIterator<'a> as std::iter::Iterator>::next$|FilterPartIterator", r".", "local",
      "filters[self.index] after the index < len test", None),
     # ------------------------------------------------------------------ filters/network_matchers.rs
-    (r"^filters::network_matchers::is_anchored_by_hostname$", r".", "input-shape",
-     "offsets are filter_hostname.len(), a memmem::find hit, hit + filter_hostname.len() (the end of that match, "
-     "<= hostname.len()) and hit-1 (taken only when hit != 0) on the request hostname; start and end of a substring "
-     "match are char boundaries; " + ASCII_HOST + "; filter_hostname.len() < hostname.len() on these branches", None),
-    (r"^filters::network_matchers::check_pattern_regex_filter_at$", r".", "input-shape",
-     "start_from is 0 or memmem::find(url, filter_hostname) + len after is_anchored_by_hostname succeeded, i.e. "
-     "the filter hostname occurs in the request hostname, which occurs in the URL; " + ASCII_HOST, None),
+    # (byte slices throughout: no char-boundary obligations. The URL itself is only sliced with str::get.)
+    (r"^filters::network_matchers::hostname_offset$", r"^index\|", "local",
+     "bytes[authority_start..] with authority_start = 0 or memmem::find(b\"://\") + 3 (the end of a 3-byte match, "
+     "<= len); authority[..authority_len] with authority_len = a position() hit (< len) or authority.len(). The "
+     "host itself is taken with the checked slice::get", None),
+    (r"^filters::network_matchers::anchored_hostname_ends::\{closure#0\}$", r"^index\|", "local",
+     "haystack[from..] inside `while from + needle.len() <= haystack.len()`, so from <= len", None),
+    (r"^filters::network_matchers::anchored_hostname_ends::\{closure#0\}$", r"^assert\|BoundsCheck\|PtrMetadata\(up#0\)", "local",
+     "needle[0] and needle[needle.len() - 1] are reached only after the early return for an empty needle", None),
+    (r"^filters::network_matchers::anchored_hostname_ends::\{closure#0\}$", r"^assert\|Overflow\(Sub\)\|core::slice::len\(up#0\) , 1", "local",
+     "needle.len() - 1 after the early return for an empty needle", None),
+    (r"^filters::network_matchers::anchored_hostname_ends::\{closure#0\}$", r"^assert\|Overflow\(Sub\)\|", "local",
+     "start - 1 is evaluated only when start != 0 (right operand of `start == 0 || ..`)", None),
+    (r"^filters::network_matchers::anchored_hostname_ends::\{closure#0\}$", r"^assert\|BoundsCheck\|PtrMetadata\(up#2\)", "local",
+     "start is a memmem::find hit in haystack[from..] shifted by from, so start + needle.len() <= haystack.len(): "
+     "start - 1 < len; haystack[end] (end = start + needle.len()) is evaluated only when end != haystack.len()", None),
     # ------------------------------------------------------------------ lists.rs
     (r"^lists::read_list_metadata$", r".", "local",
      "cutoff = min(len, 1024) is decremented only while !is_char_boundary(cutoff); 0 is a boundary", None),
@@ -207,7 +216,8 @@ REASONS = [
     (r"^resources::MimeType::from_extension$", r".", "local", "resource_path[i + 1..] with i = memrchr(b'.')", None),
     # ------------------------------------------------------------------ url_parser
     (r"^<url_parser::DefaultResolver as url_parser::ResolvesDomain>::get_host_domain$", r".", "total",
-     "the root / suffix returned by addr for `host` is a suffix slice of `host` (dependency contract)", None),
+     "the root / suffix returned by addr (domain::Name or, for hosts the registry rules reject, dns::Name) for `host` "
+     "is a suffix slice of `host` (dependency contract); map_or's default is host.len() itself", None),
     (r"^url_parser::RequestUrl::(schema|hostname|domain)$", r".", "request-invariant",
      "offsets recorded by parse_url while building the same `url` string (schema_end, hostname_pos, domain); "
      "RequestUrl is only constructed in parse_url", None),
